@@ -922,8 +922,25 @@ def gen_dns_cert():
     gflat = re.sub(r"\s+", "", g)
     after_recv = gflat.split(".recv_msg()", 1)[1] if ".recv_msg()" in gflat else ".unwrap()"
     client_reports = ".unwrap()" not in after_recv and ".expect(" not in after_recv and "rdata.len()<4" in after_recv
+    # every cache miss takes a fresh ephemeral port from SocketAPI: does `get_ephemeral_port` read
+    # and advance its counter under ONE lock (two sockets never get the same port), or with a read
+    # lock followed by a separate write lock (two tasks on different threads can read the same value)?
+    sapi = strip_comments(read(os.path.join(CORE, "protocols", "socket_api.rs"))).split("#[cfg(test)]")[0]
+    em = re.search(r"fn\s+get_ephemeral_port\s*\(\s*&self\s*\)\s*->\s*Result<u16,\s*SocketError>", sapi)
+    if not em:
+        raise ExtractError("socket_api.rs: get_ephemeral_port not found")
+    eb = re.sub(r"\s+", "", fn_body(sapi, em.end()))
+    n_read, n_write = eb.count("self.local_ports.read()"), eb.count("self.local_ports.write()")
+    if eb.count("local_ports") != n_read + n_write + eb.count("*local_ports") or (n_read, n_write) not in ((0, 1), (1, 1)) \
+            or ".await" in eb or "drop(" in eb:
+        raise ExtractError("socket_api.rs: get_ephemeral_port no longer has one of the two known shapes "
+                           "(one write lock / a read lock then a write lock): %d reads, %d writes" % (n_read, n_write))
+    port_one_lock = (n_read, n_write) == (0, 1)
     lines = ["-- GENERATED from /repo sources by tools/extract.py on every check; do not edit",
              "namespace Elvis.Gen",
+             "/-- `SocketAPI::get_ephemeral_port` reads and advances the port counter under one write lock",
+             "    (false: a read lock, released, then a write lock) -/",
+             f"def socketEphemeralPortOneLock : Bool := {'true' if port_one_lock else 'false'}",
              "/-- the responder task logs the error `respond_to_query` returns; nothing is unwrapped before the reply is built -/",
              f"def dnsServerReportsErrors : Bool := {'true' if server_reports else 'false'}",
              "/-- `get_host_by_name` unwraps nothing after `recv_msg` and checks `rdata.len() < 4` -/",
